@@ -10,7 +10,7 @@
 (***************************************************************************)
 EXTENDS SqlFlat, Sources, Json
 
-CONSTANTS MaxPre, LeftSrc, RightSrc
+CONSTANTS MaxPre, LeftSrc, RightSrc, EmitAll     \* EmitAll: also print every join with the catalogue's decision (conformance with the code's decisions)
 
 VARIABLES tl, tr, ql, qr, cl, cr, nid, steps, trace, phase
 vars == <<tl, tr, ql, qr, cl, cr, nid, steps, trace, phase>>
@@ -25,26 +25,38 @@ Pre(t, side) ==
                                           MMutate(side, <<KV("z", LitI(1))>>)>> ELSE <<>>)
         \o MapS(b, LAMBDA c : MFilter(side, <<Fn2("gt", Col(c), LitI(0))>>))
         \o MapS(a, LAMBDA c : MFilter(side, <<Fn1("is_not_null", Col(c))>>))
+        \o (IF EmitAll /\ b # <<>> /\ fresh("w") THEN <<MMutate(side, <<KV("w", Agg("sum", Col(b[1])))>>)>> ELSE <<>>)     \* a window column
+        \o (IF EmitAll /\ b # <<>> /\ t.part = <<>> THEN <<MGroupBy(side, <<Col(b[1])>>, FALSE)>> ELSE <<>>)
+        \o (IF EmitAll /\ t.part # <<>> /\ fresh("s") /\ a # <<>> THEN <<MSummarize(side, <<KV("s", Agg("max", Col(a[1])))>>)>> ELSE <<>>)
+        \o (IF EmitAll /\ a # <<>> THEN <<MArrange(side, <<Ord(Col(a[1]), FALSE, "last")>>)>> ELSE <<>>)
+        \o (IF EmitAll THEN <<MSlice(side, 3, 0)>> ELSE <<>>)
 
 Init == /\ tl = SrcTables[LeftSrc] /\ tr = SrcTables[RightSrc]
         /\ ql = Q0(tl) /\ qr = Q0(tr) /\ cl = Cs0 /\ cr = Cs0
         /\ nid = 100 /\ steps = 0 /\ trace = <<>> /\ phase = "pre"
 
-ApplyPre(t, m, n) == IF m.v = "mutate" THEN Mutate(t, m.kv, n) ELSE Filter(t, m.ps)
+ApplyPre(t, m, n) == CASE m.v = "mutate" -> Mutate(t, m.kv, n)
+                       [] m.v = "filter" -> Filter(t, m.ps)
+                       [] m.v = "group_by" -> GroupBy(t, m.cs, m.add)
+                       [] m.v = "summarize" -> Summarize(t, m.kv, n)
+                       [] m.v = "arrange" -> Arrange(t, m.os)
+                       [] m.v = "slice_head" -> SliceHead(t, m.n, m.k)
+NewIds(m) == IF m.v \in {"mutate", "summarize"} THEN Len(m.kv) ELSE 0
+PreOk(c, t, m) == Rq(c, t, m) = ""      \* the side itself stays one SELECT
 
 PreStep ==
     /\ phase = "pre" /\ steps < MaxPre
     /\ \/ \E j \in DOMAIN Pre(tl, 1) :
             LET m == Pre(tl, 1)[j] r == ApplyPre(tl, m, nid) IN
-            /\ r.ok /\ ~HasUndef(r.t)
+            /\ r.ok /\ ~HasUndef(r.t) /\ PreOk(cl, tl, m)
             /\ tl' = r.t /\ ql' = Acc(ql, m, nid, r.t) /\ cl' = CsUpdate(cl, tl, m)
-            /\ nid' = nid + (IF m.v = "mutate" THEN 1 ELSE 0)
+            /\ nid' = nid + NewIds(m)
             /\ trace' = Append(trace, m) /\ UNCHANGED <<tr, qr, cr>>
        \/ \E j \in DOMAIN Pre(tr, 2) :
             LET m == Pre(tr, 2)[j] r == ApplyPre(tr, m, nid) IN
-            /\ r.ok /\ ~HasUndef(r.t)
+            /\ r.ok /\ ~HasUndef(r.t) /\ PreOk(cr, tr, m)
             /\ tr' = r.t /\ qr' = Acc(qr, m, nid, r.t) /\ cr' = CsUpdate(cr, tr, m)
-            /\ nid' = nid + (IF m.v = "mutate" THEN 1 ELSE 0)
+            /\ nid' = nid + NewIds(m)
             /\ trace' = Append(trace, m) /\ UNCHANGED <<tl, ql, cl>>
     /\ steps' = steps + 1 /\ UNCHANGED phase
 
@@ -58,6 +70,7 @@ RqJoin(c, t, how, isRight) ==
     ELSE IF c.filt /\ how = "full" THEN "full join with a filtered table"
     ELSE ""
 
+JoinKeysVisible == ByName(SrcTables[LeftSrc])["a"] \in VisSet(tl) /\ ByName(SrcTables[RightSrc])["a"] \in VisSet(tr)
 JoinOn == <<Fn2("eq", Col(ByName(SrcTables[LeftSrc])["a"]), Col(ByName(SrcTables[RightSrc])["a"]))>>
 
 (* the merged SELECT of backend/sql.py *)
@@ -69,8 +82,19 @@ JoinFlat(how) ==
 
 JoinSeq(how) == Join(tl, tr, JoinOn, how, "_r")
 
+DecisionStep ==      \* conformance mode: every reachable pair of sides x join kind with the catalogue's decision
+    /\ phase = "pre" /\ EmitAll
+    /\ \E how \in {"inner", "left", "full"} :
+         LET needL == RqJoin(cl, tl, how, FALSE)
+             needR == RqJoin(cr, tr, how, TRUE)
+         IN /\ JoinKeysVisible /\ JoinSeq(how).ok      \* a grouped side is a ValueError of the verb on every back end
+            /\ PrintT(ToJson([left |-> SrcTables[LeftSrc].name, right |-> SrcTables[RightSrc].name, pre |-> trace, how |-> how,
+                               needL |-> needL, needR |-> needR]))
+            /\ phase' = "decided"
+    /\ UNCHANGED <<tl, tr, ql, qr, cl, cr, nid, steps, trace>>
+
 JoinStep ==
-    /\ phase = "pre"
+    /\ phase = "pre" /\ ~EmitAll
     /\ \E how \in {"inner", "left", "full"} :
          LET needL == RqJoin(cl, tl, how, FALSE)
              needR == RqJoin(cr, tr, how, TRUE)
@@ -82,7 +106,7 @@ JoinStep ==
             /\ phase' = IF SameVisible(F, S.t) THEN "ok" ELSE "bad"
     /\ UNCHANGED <<tl, tr, ql, qr, cl, cr, nid, steps, trace>>
 
-Next == PreStep \/ JoinStep
+Next == PreStep \/ JoinStep \/ DecisionStep
 
 View == <<tl, tr, ql, qr, cl, cr, nid, steps, phase>>
 
